@@ -687,4 +687,19 @@ theorem srr_byteorder_not_kept :
     ∧ ({ exLaser with fields := [(['A'], ['>','f','8']), (['B','\t','b'], ['>','i','2'])] } : Laser).ok = true := by
   decide +kernel
 
+/-- **Configuration calls keep the configuration inside the quantifier and never change its class**:
+every attribute assignment, the `subpixel_offsets` setter (non-zero sizes), `set_equal_subpixel_offsets`
+and the `warmup` setter (at most 2⁵⁰ samples) applied to a configuration that is `Config.ok` give one that
+is — so `config_roundtrip`, hence `history_roundtrip`, applies to the file written after the call. -/
+theorem config_calls_ok (fl : Rat → Rat) (c c' : Config) (hc : c.ok = true) (o : CfgOp) (h : c.apply fl o = .ok c')
+    (ho : match o with
+      | .offsets ofs => ∀ od ∈ ofs, od.2 ≠ 0
+      | .warmup s => ∀ r, c = .srr r → (roundHalfEven (fl (s / r.scantime))).natAbs ≤ 2 ^ 50
+      | _ => True) : c'.ok = true ∧ c'.isSRR = c.isSRR :=
+  ⟨apply_ok fl c c' hc o h ho, apply_isSRR fl c c' o h⟩
+
+example : (Config.srr exSRR2).apply id (.equalOffsets 3) = .ok (.srr { exSRR2 with subSize := 3, subOffsets := [0, 1, 2] })
+    ∧ (Config.srr exSRR2).apply id (.scantime (fltOfRat (1 / 2))) = .ok (.srr { exSRR2 with scantime := 1 / 2 })
+    ∧ (Config.raster fzero fzero fzero).apply id (.equalOffsets 3) = .error .unmodelled := by decide +kernel
+
 end Pew.Npz
